@@ -729,13 +729,15 @@ const OP_SIBLINGS: [(&str, &str); 24] = [
     ("Datum<Command>.mul(Datum<f32>)", "Datum<Command>.mul_assign(Datum<f32>)"), ("Datum<Command>.mul(f32)", "Datum<Command>.mul_assign(f32)"),
     ("Datum<Command>.div(Datum<f32>)", "Datum<Command>.div_assign(Datum<f32>)"), ("Datum<Command>.div(f32)", "Datum<Command>.div_assign(f32)"),
 ];
-/// canonical observation of one operator result: None = panicked; (time or 0, kind or 9, value bits)
+/// canonical observation of one operator result: None = panicked; (time or 0, kind or 9 for a State, value bits)
 type Obs = Option<(i64, u32, [u32; 3])>;
+static IMPL_COUNTS: [std::sync::atomic::AtomicU64; 52] = [const { std::sync::atomic::AtomicU64::new(0) }; 52];
 struct Mx<'a> {
     rep: &'a mut Report,
     case: u64,
-    desc: String,
-    seen: std::collections::BTreeMap<&'static str, Obs>,
+    desc: &'a dyn Fn() -> String,
+    /// observations in OP_IMPLS order
+    seen: Vec<Obs>,
 }
 fn st_obs(t: i64, s: &State) -> Obs {
     Some((t, 9, [cbits(s.position), cbits(s.velocity), cbits(s.acceleration)]))
@@ -744,49 +746,58 @@ fn cm_obs(t: i64, c: &Command) -> Obs {
     let (k, x) = cparts(c);
     Some((t, k as u32, [cbits(x), 0, 0]))
 }
+fn obs_txt(o: &Obs) -> String {
+    match o {
+        None => "a panic".to_string(),
+        Some((t, 9, v)) => format!("t={} State{{p={}, v={}, a={}}}", t, f(f32::from_bits(v[0])), f(f32::from_bits(v[1])), f(f32::from_bits(v[2]))),
+        Some((t, k, v)) => format!("t={} {}", t, cfmt(&mk(*k as usize, f32::from_bits(v[0])))),
+    }
+}
 impl Mx<'_> {
-    fn judge(&mut self, name: &'static str, got: Obs, got_txt: String, want: Obs, want_txt: String) {
-        debug_assert!(OP_IMPLS.contains(&name));
+    /// forms must be judged in OP_IMPLS order (checked), which makes the per-impl counters index-addressed
+    fn judge(&mut self, name: &'static str, got: Obs, want: Obs) {
+        let idx = self.seen.len();
+        assert!(OP_IMPLS[idx] == name, "c14.rs: operator forms are judged out of OP_IMPLS order");
+        IMPL_COUNTS[idx].fetch_add(1, std::sync::atomic::Ordering::Relaxed);
         self.rep.eval();
-        self.rep.tally(&format!("impl/{}", name));
-        self.seen.insert(name, got);
+        self.seen.push(got);
         match (got, want) {
             (None, None) => self.rep.tally("op_matrix_mixed_kind_panics_observed"),
-            (None, Some(_)) => self.rep.violation(&format!("C14/op/{}/unexpected-panic", name), "op-matrix", self.case, format!("{} [{}] panicked ({}), expected {}", name, self.desc, got_txt, want_txt)),
-            (Some(_), None) => self.rep.violation(&format!("C14/op/{}/missing-panic", name), "op-matrix", self.case, format!("{} [{}] -> {} without panic although the command kinds differ", name, self.desc, got_txt)),
+            (None, Some(_)) => self.rep.violation(&format!("C14/op/{}/unexpected-panic", name), "op-matrix", self.case, format!("{} [{}] panicked, expected {}", name, (self.desc)(), obs_txt(&want))),
+            (Some(_), None) => self.rep.violation(&format!("C14/op/{}/missing-panic", name), "op-matrix", self.case, format!("{} [{}] -> {} without panic although the command kinds differ", name, (self.desc)(), obs_txt(&got))),
             (Some(g), Some(w)) => {
                 if g.1 != w.1 || g.2 != w.2 {
-                    self.rep.violation(&format!("C14/op/{}/value", name), "op-matrix", self.case, format!("{} [{}] -> {}, expected {}", name, self.desc, got_txt, want_txt));
+                    self.rep.violation(&format!("C14/op/{}/value", name), "op-matrix", self.case, format!("{} [{}] -> {}, expected {}", name, (self.desc)(), obs_txt(&got), obs_txt(&want)));
                 }
                 if g.0 != w.0 {
-                    self.rep.violation(&format!("C14/op/{}/time", name), "op-matrix", self.case, format!("{} [{}] -> {}, expected {}", name, self.desc, got_txt, want_txt));
+                    self.rep.violation(&format!("C14/op/{}/time", name), "op-matrix", self.case, format!("{} [{}] -> {}, expected {}", name, (self.desc)(), obs_txt(&got), obs_txt(&want)));
                 }
             }
         }
     }
     fn st(&mut self, name: &'static str, got: Result<State, String>, want: State) {
-        let (o, txt) = match &got { Ok(s) => (st_obs(0, s), sfmt(s)), Err(m) => (None, m.clone()) };
-        self.judge(name, o, txt, st_obs(0, &want), sfmt(&want));
+        self.judge(name, got.ok().and_then(|s| st_obs(0, &s)), st_obs(0, &want));
     }
     fn dst(&mut self, name: &'static str, got: Result<Datum<State>, String>, want: State, wt: i64) {
-        let (o, txt) = match &got { Ok(d) => (st_obs(d.time.0, &d.value), format!("t={} {}", d.time.0, sfmt(&d.value))), Err(m) => (None, m.clone()) };
-        self.judge(name, o, txt, st_obs(wt, &want), format!("t={} {}", wt, sfmt(&want)));
+        self.judge(name, got.ok().and_then(|d| st_obs(d.time.0, &d.value)), st_obs(wt, &want));
     }
     fn cm(&mut self, name: &'static str, got: Result<Command, String>, want: Option<Command>) {
-        let (o, txt) = match &got { Ok(c) => (cm_obs(0, c), cfmt(c)), Err(m) => (None, m.clone()) };
-        let (w, wtxt) = match &want { Some(c) => (cm_obs(0, c), cfmt(c)), None => (None, "a panic".to_string()) };
-        self.judge(name, o, txt, w, wtxt);
+        self.judge(name, got.ok().and_then(|c| cm_obs(0, &c)), want.and_then(|c| cm_obs(0, &c)));
     }
     fn dcm(&mut self, name: &'static str, got: Result<Datum<Command>, String>, want: Option<Command>, wt: i64) {
-        let (o, txt) = match &got { Ok(d) => (cm_obs(d.time.0, &d.value), format!("t={} {}", d.time.0, cfmt(&d.value))), Err(m) => (None, m.clone()) };
-        let (w, wtxt) = match &want { Some(c) => (cm_obs(wt, c), format!("t={} {}", wt, cfmt(c))), None => (None, "a panic".to_string()) };
-        self.judge(name, o, txt, w, wtxt);
+        self.judge(name, got.ok().and_then(|d| cm_obs(d.time.0, &d.value)), want.and_then(|c| cm_obs(wt, &c)));
     }
+}
+fn sibling_indices() -> &'static Vec<(usize, usize)> {
+    static IDX: std::sync::OnceLock<Vec<(usize, usize)>> = std::sync::OnceLock::new();
+    IDX.get_or_init(|| {
+        OP_SIBLINGS.iter().map(|(b, a)| (OP_IMPLS.iter().position(|n| n == b).expect("sibling table"), OP_IMPLS.iter().position(|n| n == a).expect("sibling table"))).collect()
+    })
 }
 #[allow(clippy::too_many_arguments)]
 fn check_op_matrix(rep: &mut Report, case: u64, a: State, b: State, ki: usize, kj: usize, x: f32, y: f32, k: f32, t1: i64, t2: i64) {
-    let desc = format!("a={} b={} ca={} cb={} k={} t_lhs={} t_rhs={}", sfmt(&a), sfmt(&b), cfmt(&mk(ki, x)), cfmt(&mk(kj, y)), f(k), t1, t2);
-    let mut mx = Mx { rep, case, desc, seen: Default::default() };
+    let desc = || format!("a={} b={} ca={} cb={} k={} t_lhs={} t_rhs={}", sfmt(&a), sfmt(&b), cfmt(&mk(ki, x)), cfmt(&mk(kj, y)), f(k), t1, t2);
+    let mut mx = Mx { rep, case, desc: &desc, seen: Vec::with_capacity(52) };
     let newest = t1.max(t2);
     let m2 = |op: fn(f32, f32) -> f32| State::new_raw(op(a.position, b.position), op(a.velocity, b.velocity), op(a.acceleration, b.acceleration));
     let m1 = |op: &dyn Fn(f32) -> f32| State::new_raw(op(a.position), op(a.velocity), op(a.acceleration));
@@ -858,22 +869,18 @@ fn check_op_matrix(rep: &mut Report, case: u64, a: State, b: State, ki: usize, k
     mx.dcm("Datum<Command>.div(f32)", catch(|| dca / k), c_div, t1);
     mx.dcm("Datum<Command>.div_assign(f32)", catch(|| { let mut v = dca; v /= k; v }), c_div, t1);
     // ---- siblings: x op= y is x = x op y
-    for (bin, asg) in OP_SIBLINGS.iter() {
+    for (k, &(bin, asg)) in sibling_indices().iter().enumerate() {
         mx.rep.eval();
-        match (mx.seen.get(bin), mx.seen.get(asg)) {
-            (Some(p), Some(q)) => {
-                if p != q {
-                    mx.rep.violation(&format!("C14/op/{}/differs-from-binary-form", asg), "op-matrix", case, format!("[{}] {} gave {:x?} but {} gave {:x?} (time, kind, canonical value bits)", mx.desc, bin, p, asg, q));
-                }
-            }
-            _ => mx.rep.violation("C14/op/sibling-table", "op-matrix", case, format!("form {} or {} was not executed", bin, asg)),
+        if mx.seen[bin] != mx.seen[asg] {
+            mx.rep.violation(&format!("C14/op/{}/differs-from-binary-form", OP_SIBLINGS[k].1), "op-matrix", case,
+                format!("[{}] {} gave {} but {} gave {}", (mx.desc)(), OP_SIBLINGS[k].0, obs_txt(&mx.seen[bin]), OP_SIBLINGS[k].1, obs_txt(&mx.seen[asg])));
         }
     }
     if mx.seen.len() == OP_IMPLS.len() {
         mx.rep.tally("op_matrix_all_52_impls_executed");
     }
     if mx.rep.want_sample("op-matrix") {
-        let d = mx.desc.clone();
+        let d = (mx.desc)();
         mx.rep.sample("op-matrix", format!("{}: all 52 operator impls", d));
     }
 }
@@ -1275,7 +1282,8 @@ fn main() {
         check_op_matrix(&mut rep, case, a, b, ki, kj, x, y, k, t1, t2);
     }
     rep.exhaustive("operator matrix: all 52 operator impls with State/Command/Datum<State>/Datum<Command> (list OP_IMPLS in c14.rs) x 3x3 command kind pairs x rhs timestamp {equal, newer, older}");
-    for name in OP_IMPLS.iter() {
+    for (i, name) in OP_IMPLS.iter().enumerate() {
+        rep.tally_n(&format!("impl/{}", name), IMPL_COUNTS[i].load(std::sync::atomic::Ordering::Relaxed));
         rep.floor(&format!("impl/{}", name), 20_000);
     }
     rep.floor("op_matrix_all_52_impls_executed", 20_000);
